@@ -146,7 +146,7 @@ def cases(enc):
         "style": st.sampled_from(["instance", "instance-interleaved",
                                   "instance-interleaved", "dumps-fresh",
                                   "dumps-default", "other-encoder-registers",
-                                  "shared-decoder"])})
+                                  "shared-decoder", "other-dialects-between"])})
 
 
 def run_case(case):
@@ -197,6 +197,24 @@ def run_case(case):
                     t = pvl.dumps(m, encoder=type(encoder)(decoder=shared, **cfg))
                 else:
                     t = encoder.encode(m)
+            elif style == "other-dialects-between":
+                if call:
+                    # between the calls, encoders of the other dialects (and a plain
+                    # pvl.dumps) write modules with long statements of their own
+                    long_mod = gv.build_module([["LONG_STATEMENT", {"seq": [
+                        "several words in a string", "another string of words",
+                        "and a third one so that the line has to be wrapped", 12345]}]])
+                    for other in ENCODERS:
+                        if other != enc:
+                            try:
+                                make_encoder(other).encode(long_mod)
+                            except (ValueError, TypeError):
+                                pass
+                    try:
+                        pvl.dumps(long_mod)
+                    except (ValueError, TypeError):
+                        pass
+                t = encoder.encode(m)
             elif style == "instance-interleaved":
                 if call:
                     # between the calls the same encoder writes other modules that
